@@ -659,8 +659,11 @@ class UnificationDict(UserDict):
     """
 
     def __getitem__(self, key: CanBehaveLikeAVariable[T]) -> T:
-        key = key._id_expression_map_[key._var_._id_]
-        return super().__getitem__(key).value
+        variable = key._id_expression_map_[key._var_._id_]
+        if variable not in self.data:
+            # a selected nested query is stored under itself, not under the variable it selects
+            variable = key
+        return super().__getitem__(variable).value
 
 
 @dataclass(eq=False, repr=False)
